@@ -323,6 +323,84 @@ func c06FixedCase(name string) (string, any) {
 		if fmt.Sprint(got) != want {
 			return fail(s, "search %q while the tags are pending returned %v, the definitions give %s", qs, got, want)
 		}
+	case "F-C06-recreated-tag-old-job-result":
+		// a tagging job is in flight for tag/a; the tag is taken away (deleted, renamed, or given another definition)
+		// and a tag of the same name and definition appears while the tag it refers to has changed
+		for _, variant := range []string{"delete", "redefine", "rename"} {
+			s, err := vfStart([][2]string{{"aa", ""}, {"bb", ""}, {"cc", ""}}, nil, nil, false)
+			if err != nil {
+				return "setup: " + err.Error(), nil
+			}
+			msg, hist := func() (string, any) {
+				defer s.close()
+				s.hist = append(s.hist, "variant "+variant)
+				add := func(name, def string) func() error {
+					return func() error {
+						return s.call("AddTag "+name+" "+def, func(m *Manager) error { return m.AddTag(name, "#fff", def) })
+					}
+				}
+				del := func(name string) func() error {
+					return func() error { return s.call("DelTag "+name, func(m *Manager) error { return m.DelTag(name) }) }
+				}
+				steps := []func() error{
+					func() error { return s.importCapture(0) },
+					func() error { return s.deliver("import") },
+					s.settle,
+					add("mark/m", "id:1"),
+					add("tag/a", "mark:m"),
+				}
+				for _, f := range steps {
+					if err := f(); err != nil {
+						return fail(s, "%v", err)
+					}
+				}
+				if s.e.parkedCount("tag") != 1 {
+					return fail(s, "expected the tagging job of tag/a to be parked, parked: %v", s.e.parkedKinds())
+				}
+				switch variant {
+				case "delete":
+					steps = []func() error{del("tag/a"), del("mark/m"), add("mark/m", "id:0"), add("tag/a", "mark:m")}
+				case "redefine":
+					steps = []func() error{
+						func() error {
+							return s.call("UpdateTag tag/a query=id:2", func(m *Manager) error { return m.UpdateTag("tag/a", UpdateTagOperationUpdateQuery("id:2")) })
+						},
+						del("mark/m"), add("mark/m", "id:0"),
+						func() error {
+							return s.call("UpdateTag tag/a query=mark:m", func(m *Manager) error { return m.UpdateTag("tag/a", UpdateTagOperationUpdateQuery("mark:m")) })
+						},
+					}
+				case "rename":
+					steps = []func() error{
+						func() error {
+							return s.call("UpdateTag tag/a name=tag/x", func(m *Manager) error { return m.UpdateTag("tag/a", UpdateTagOperationUpdateName("tag/x")) })
+						},
+						del("tag/x"), del("mark/m"), add("mark/m", "id:0"), add("tag/a", "mark:m"),
+					}
+				}
+				for _, f := range steps {
+					if err := f(); err != nil {
+						return fail(s, "%v", err)
+					}
+				}
+				if err := s.deliver("tag"); err != nil {
+					return fail(s, "%v", err)
+				}
+				if msg := s.checkTags(); msg != "" {
+					return fail(s, "%s", msg)
+				}
+				if err := s.settle(); err != nil {
+					return fail(s, "%v", err)
+				}
+				if msg := s.checkTags(); msg != "" {
+					return fail(s, "%s", msg)
+				}
+				return "", nil
+			}()
+			if msg != "" {
+				return msg, hist
+			}
+		}
 	default:
 		return "unknown fixed case", name
 	}
@@ -331,7 +409,7 @@ func c06FixedCase(name string) (string, any) {
 
 func TestVerifC06Fixed(t *testing.T) {
 	vlib.Fixed(t, "C06", []string{"F-C06-id-only-tags", "F-C06-inherited-invalidation-lost", "F-C06-converter-reset-stale", "F-C06-inlined-tag-reference-time",
-		"F-C06-negated-pending-subquery-tag", "F-C06-nested-subquery-tags"}, c06FixedCase)
+		"F-C06-negated-pending-subquery-tag", "F-C06-nested-subquery-tags", "F-C06-recreated-tag-old-job-result"}, c06FixedCase)
 }
 
 func c09FixedCase(name string) (string, any) {
